@@ -33,14 +33,15 @@ type Profile struct {
 	Comp      bool    // completion cases (argv = COMP_LINE words)
 	HelpCases bool    // also request the help of every command level
 	Descs     float64 // descriptions (some multi-line) on options and commands
+	Again     float64 // probability that a case is run after an earlier Parse on the same object
 }
 
 var AllKinds = []string{"bool", "incr", "string", "int", "float", "sopt", "iopt", "fopt", "sslice", "islice", "fslice", "smap"}
 
-var namePool = []string{"v", "ver", "verbose", "version", "x", "y", "z", "s", "str", "string", "l", "list", "m", "map",
+var namePool = []string{"V", "Ver", "VERBOSE", "v", "ver", "verbose", "version", "x", "y", "z", "s", "str", "string", "l", "list", "m", "map",
 	"n", "num", "f", "flt", "q", "quiet", "é", "ü", "über", "日", "日本", "o", "out", "output", "t", "tag", "h", "he", "k", "key"}
 
-var cmdPool = []string{"cmd", "sub", "run", "build", "c", "日本", "log", "list", "str"}
+var cmdPool = []string{"cmd", "sub", "run", "build", "Build", "RUN", "c", "日本", "log", "list", "str"}
 
 var wordPool = []string{"a", "b", "val", "foo", "cmd", "sub", "run", "true", "false", "help", "x", ""}
 
@@ -204,7 +205,7 @@ func GenDef(r *rand.Rand, p *Profile) Cfg {
 			o.Req = true
 			if chance(r, 0.5) {
 				o.HasMsg = true
-				o.ReqMsg = T(pick(r, []string{"need " + name, "custom: give it", "please"}))
+				o.ReqMsg = T(pick(r, []string{"need " + name, "custom: give it", "please", "at least 10% of " + name, "%s is missing (%d)"}))
 			}
 		}
 		if chance(r, p.Env) {
